@@ -37,7 +37,9 @@ REQUIRED = ["at_most_once_atomic", "at_most_one_success_atomic", "at_most_one_su
             "request_object_dead_after_any_fetch", "landing_token_dead_after_use", "dpop_refusal_registers_nothing", "dpop_jti_replay_refused", "dpop_jti_no_replay_within_ttl",
             # OpenID4VCI request level + landing-page refinement (Props/C05Vci.lean)
             "fact_vci_sources", "fact_vci_tables", "preauth_code_dead_after_any_attempt", "preauth_honoured_at_most_once_in_any_history",
-            "preauth_honoured_only_if_live_and_own", "preauth_dead_code_issues_nothing", "handleLanding_refines_thread", "landing_page_at_most_once_all_schedules"]
+            "preauth_honoured_only_if_live_and_own", "preauth_dead_code_issues_nothing", "handleLanding_refines_thread", "landing_page_at_most_once_all_schedules",
+            # round 3: the remaining iam burn handlers as threads (Props/C05Ref.lean)
+            "validateNonce_refines_threads", "vp_response_at_most_once_all_schedules", "handleReqObj_refines_thread", "request_object_at_most_once_all_schedules"]
 
 
 def oracle(op, line, facts):
@@ -83,7 +85,7 @@ def oracle(op, line, facts):
             if j != i and b["kind"] == a["kind"] and b["id"] == a["id"] and j in last and i in first and last[j] < first[i] \
                     and j < len(outs) and not outs[j].startswith("stuck") and b.get("fail") != "del" and (a["kind"] == "code" or outs[j] in ("ok", "mismatch", "post-check")):
                 bad.append((f"C05:{a['kind']}:{where}:honoured-after-earlier-attempt", f"thread {i} succeeded after thread {j} ({outs[j]}) had finished"))
-        if tfirst.get(i, 0) > ttl(a["kind"]):
+        if (op.get("ttl") or {}).get(a["kind"], facts.get(TTL_FACT[a["kind"]])) is not None and tfirst.get(i, 0) > ttl(a["kind"]):
             bad.append((f"C05:{a['kind']}:{where}:honoured-after-ttl", f"thread {i} succeeded at t={tfirst[i]} > ttl {ttl(a['kind'])}"))
     return bad
 
@@ -137,7 +139,7 @@ def forms_oracle(op, line, facts):
             kind, sid = ("reqobj", r.get("id", "")) if r["t"] == "reqobj" else ("redirect", r.get("token", ""))
             if (kind, sid) not in issued:
                 bad.append((f"C05:{kind}:{where}:form-honoured-never-issued", f"request {j}: {kind} {sid!r} was never issued"))
-            if t[j] > facts.get(TTL_FACT[kind], 0):
+            if t[j] > facts.get(TTL_FACT[kind], 10**9):
                 bad.append((f"C05:{kind}:{where}:form-honoured-after-ttl", f"request {j}: {kind} {sid!r} honoured at t={t[j]}"))
             for i in range(j):
                 q = reqs[i]
@@ -160,7 +162,7 @@ def forms_oracle(op, line, facts):
             c = r["code"]
             if ("code", c) not in issued:
                 bad.append((f"C05:code:{where}:form-honoured-never-issued", f"request {j}: code {c!r} was never issued"))
-            if t[j] > facts.get(TTL_FACT["code"], 0):
+            if t[j] > facts.get(TTL_FACT["code"], 10**9):
                 bad.append((f"C05:code:{where}:form-honoured-after-ttl", f"request {j}: code {c!r} honoured at t={t[j]}"))
             for i in range(j):
                 q = reqs[i]
@@ -175,7 +177,7 @@ def forms_oracle(op, line, facts):
             n = next(iter(ns))
             if ("vpnonce", n) not in issued:
                 bad.append((f"C05:vpnonce:{where}:form-honoured-never-issued", f"request {j}: nonce {n!r} was never issued"))
-            if t[j] > facts.get(TTL_FACT["vpnonce"], 0):
+            if t[j] > facts.get(TTL_FACT["vpnonce"], 10**9):
                 bad.append((f"C05:vpnonce:{where}:form-honoured-after-ttl", f"request {j}: nonce {n!r} honoured at t={t[j]}"))
             for i in range(j):
                 q = reqs[i]
@@ -208,7 +210,7 @@ def vforms_oracle(op, line, facts):
         return [("C05:vforms:unparsable-output", line[:200])]
     ans = m.group(1).split(";")
     where = "vci:" + op.get("backend", "?")
-    ttl = facts.get("vciTokenTTL", 0)
+    ttl = facts.get("vciTokenTTL", 10**9)   # absent fact (extractor could not read a mutated source): the after-ttl oracle cannot be evaluated
     live = set(filter(None, m.group(2).split(",")))
     now, t = 0, []
     for r in reqs:
@@ -261,7 +263,7 @@ def vforms_oracle(op, line, facts):
 
 def run(ctx):
     facts = ctx.facts() or {}
-    thms = ctx.build_and_audit(["NutsProofs.Props.C05", "NutsProofs.Props.C05Forms", "NutsProofs.Props.C05Vci"])
+    thms = ctx.build_and_audit(["NutsProofs.Props.C05", "NutsProofs.Props.C05Forms", "NutsProofs.Props.C05Vci", "NutsProofs.Props.C05Ref"])
     for r in REQUIRED:
         if not any(t.endswith("Props." + r) for t in thms):
             ctx.oblige("thm-present:" + r, False, "theorem missing or its module does not build")
@@ -310,7 +312,11 @@ def run(ctx):
             continue
         ctx.oblige("harness-runs:" + name, True)
         ops_p, impl_p, model_p = (os.path.join(out, x) for x in ("ops.jsonl", "impl.out", "model.out"))
-        ok, err = ctx.model("C05", ops_p, model_p)
+        try:
+            ok, err = ctx.model("C05", ops_p, model_p)
+        except Exception as e:  # noqa  (model binary missing because the Lean build broke: the oracles below still run on the implementation's outputs)
+            ok, err = False, repr(e)
+            open(model_p, "w").close()
         ctx.oblige("model-driver-runs:" + name, ok, err[-500:])
         i1, m1, b1 = ctx.compare(impl_p, model_p)
         o1 = ctx.read_lines(ops_p)
